@@ -60,7 +60,7 @@ def crash(topo, cfg, culprit, kind, stage):
             if fin:
                 later = [x for x in log[fin[0] + 1:] if x[1] == sid and x[0] in ('step', 'get_data', 'setup_done')]
                 eng.check(not later, 'C14.after_stop', f'{sid} received {later[:3]} after finalize: {desc}', {'fp': fp})
-        eng.check(loop.is_closed(), 'C14.loop', f'event loop not closed after run(): {desc}', {'fp': fp})
+        eng.check(bool(r.closed_by_run), 'C14.loop', f'event loop not closed after run() (ended with {r.outcome} {getattr(r.exc, "args", "")}): {desc}', {'fp': fp})
         leaked = loop.leaked or []
         eng.check(not leaked, 'C14.leak', f'{len(leaked)} unfinished task(s) when the loop was closed: {sorted(leaked)[:4]}: {desc}',
                   {'fp': fp, 'runner_only': all(n.startswith('Runner for') for n in leaked)})
@@ -121,6 +121,7 @@ def crash_async(cfg, kind):
                     outcome = 'exc:' + type(e).__name__
                 finally:
                     loop.active = False
+                    closed_by_run = loop.is_closed()
             finally:
                 if not loop.is_closed():
                     loop.close()
@@ -138,7 +139,7 @@ def crash_async(cfg, kind):
             if fin:
                 later = [x for x in log[fin[0] + 1:] if x[1] == sid and x[0] in ('step', 'get_data', 'setup_done')]
                 eng.check(not later, 'C14.after_stop', f'{sid} received {later[:3]} after finalize: {desc}', {'fp': fp})
-        eng.check(loop.is_closed(), 'C14.loop', f'event loop not closed after run(): {desc}', {'fp': fp})
+        eng.check(closed_by_run, 'C14.loop', f'event loop not closed after run(): {desc}', {'fp': fp})
         leaked = loop.leaked or []
         eng.check(not leaked, 'C14.leak', f'{len(leaked)} unfinished task(s) when the loop was closed: {sorted(leaked)[:4]}: {desc}', {'fp': fp})
         return (outcome, {'nontrivial': True, 'fired': st['fired'], 'leaked': len(leaked)})
@@ -148,7 +149,9 @@ def crash_async(cfg, kind):
 def crash_remote(topo, cfg, culprit, kind):
     """the simulators listed in cfg['remote'] are connected through the in-memory remote transport (vk.remote): the real RemoteProxy,
     Channel and simulator-side loop.  kind: 'raise' (the handler raises: a failure reply), 'die_before' / 'die_after' (the process
-    exits when the request arrives / after handling it, before the reply: the connection closes)."""
+    exits when the request arrives / after handling it, before the reply: the connection closes), 'die_any' (the process exits at
+    an idle moment of the run chosen by the solver, also between two requests).  cfg['rst']: the second and later writes to a dead
+    peer may fail (BrokenPipeError -> connection_lost)."""
     def h(eng):
         from loguru import logger
         from vk import remote as R
@@ -157,7 +160,7 @@ def crash_remote(topo, cfg, culprit, kind):
         st = {'n': 0, 'fired': None}
 
         def rfault(ep, name, when, r):
-            if getattr(ep.sim, 'sid', None) != culprit or not sysrun.CTX['loop'].active:
+            if kind == 'die_any' or getattr(ep.sim, 'sid', None) != culprit or not sysrun.CTX['loop'].active:
                 return r
             if when == 'before':
                 idx = st['n']
@@ -179,8 +182,23 @@ def crash_remote(topo, cfg, culprit, kind):
             return r
         errs = []
         hid = logger.add(lambda m: errs.append(str(m)), level='ERROR', format='{message}')
+
+        def arm(world, loop):
+            loop.rst = bool(cfg.get('rst'))
+            # kind 'die_any': the culprit's process exits at a moment the solver chooses among all idle moments of the run
+            # (also while mosaik is not waiting for a reply from it)
+            if kind != 'die_any':
+                return
+            ep = next(e for e in loop.endpoints if getattr(e.sim, 'sid', None) == culprit)
+            loop.rst = bool(cfg.get('rst'))
+
+            def process_exit():
+                st['fired'] = ('any', len(loop.deliveries))
+                st['log_at_exit'] = len(sysrun.CTX['log'])
+                ep.die_now()
+            loop.events.append(process_exit)
         try:
-            sysrun.CTX_EXTRA = {'remote_fault': rfault}
+            sysrun.CTX_EXTRA = {'remote_fault': rfault, 'before_run': arm}
             r = sysrun.run_world(eng, topo, cfg, rules=())
         finally:
             sysrun.CTX_EXTRA = {}
@@ -193,7 +211,10 @@ def crash_remote(topo, cfg, culprit, kind):
         if r.outcome in ('deadlock', 'livelock'):
             eng.alarm('C14.hang', f'run() {r.outcome} after the fault: {desc}; in flight={[(w.label, len(w.inflight)) for w in loop.wires]}', {'fp': fp})
         elif r.outcome == 'done':
-            eng.check(bool(errs), 'C14.silent', f'run() completed normally and logged no error although a simulator failed: {desc}', {'fp': fp})
+            # a process that exits when mosaik needs nothing from it any more (no request after the exit) cannot matter to the run
+            needed = kind != 'die_any' or any(x[1] == culprit and x[0] in ('step', 'get_data', 'setup_done') for x in log[st.get('log_at_exit', 0):])
+            if needed:
+                eng.check(bool(errs), 'C14.silent', f'run() completed normally and logged no error although a simulator failed: {desc}', {'fp': fp})
         for sid in topo['types']:
             if sid == culprit:
                 continue
@@ -207,7 +228,7 @@ def crash_remote(topo, cfg, culprit, kind):
                   f'nor a closed connection reached them: {desc}', {'fp': fp})
         open_ = getattr(loop, 'mosaik_side_open', [])
         eng.check(not open_, 'C14.socket', f'connection(s) {open_} not closed by mosaik when run() ended: {desc}', {'fp': fp})
-        eng.check(loop.is_closed(), 'C14.loop', f'event loop not closed after run(): {desc}', {'fp': fp})
+        eng.check(bool(r.closed_by_run), 'C14.loop', f'event loop not closed after run() (ended with {r.outcome} {getattr(r.exc, "args", "")}): {desc}', {'fp': fp})
         leaked = loop.leaked or []
         eng.check(not leaked, 'C14.leak', f'{len(leaked)} unfinished task(s) when the loop was closed: {sorted(leaked)[:4]}: {desc}',
                   {'fp': fp, 'runner_only': all(n.startswith('Runner for') for n in leaked)})
@@ -256,10 +277,10 @@ def jobs(tier):
             for remote in remotes:
                 if culprit not in remote:
                     continue
-                for kind in ('raise', 'die_before', 'die_after'):
+                for kind in ('raise', 'die_before', 'die_after', 'die_any'):
                     for cache in ((True,) if q else (True, False)):
                         # local simulators of a mixed scenario answer asynchronously
-                        cfg = {'until': 3, 'K': 2, 'cache': cache, 'lazy': lazy, 'D': 0, 'sync': [], 'salt': 0, 'remote': remote}
+                        cfg = {'until': 3, 'K': 2, 'cache': cache, 'lazy': lazy, 'D': 0, 'sync': [], 'salt': 0, 'remote': remote, 'rst': kind != 'raise'}
                         j = {'id': f"remote|{name}|{culprit}|{kind}|remote={''.join(remote)}|lazy={int(lazy)}|cache={int(cache)}",
                              'harness': 'vk.kernels.c14:crash_remote', 'params': {'topo': t, 'cfg': cfg, 'culprit': culprit, 'kind': kind}, 'budget_s': 300}
                         if len(t['types']) > 2:
